@@ -1006,6 +1006,99 @@ def translate_handles(repo):
     return text
 
 
+# ---------------------------------------------------------------------------------------------------
+# drop.rs: the purge loop of `drop_unreachable_with_adoptions` and `release_links`: which records a dying
+# (or given-up) object removes from which peer, with which count.
+def translate_purge(repo):
+    path = repo + "/src/drop.rs"
+    src = re.sub(r"//[^\n]*", "", open(path).read())
+    text = ("(* GENERATED by tools/rs2v.py from %s (purge loops) -- do not edit. *)\n"
+            "From Coq Require Import List. Import ListNotations.\nFrom CR Require Import Base.\n"
+            "From Gen Require Import PurgeLang.\n\n" % path)
+    for name, hdr in (("drop_unreachable_with_adoptions", r"unsafe fn drop_unreachable_with_adoptions<T>\(this: &mut Rc<T>\) \{"),
+                      ("release_links", r"pub\(crate\) unsafe fn release_links<T>\(this: &Rc<T>\) \{")):
+        body = _norm(_fn_body(src, hdr))
+        body = re.sub(r"(?:debug|trace)!\((?:[^()]|\((?:[^()]|\([^()]*\))*\))*\);", "", body).strip()
+        binds = {}
+        while True:
+            m = re.match(r"let (\w+) = Link::(forward|backward|loopback)\(this\.ptr\); ", body)
+            if not m:
+                break
+            binds[m.group(1)] = KIND[m.group(2)]
+            body = body[m.end():]
+        m = re.match(r"let links = this\.inner\(\)\.links\(\); for \(item, &strong\) in links\.borrow\(\)\.iter\(\) \{", body)
+        if not m:
+            raise Unsupported("%s: the purge loop header is not the one the model transcribes" % name)
+        depth, i = 1, m.end()
+        while depth:
+            depth += body[i] == "{"
+            depth -= body[i] == "}"
+            i += 1
+        loop = body[m.end():i - 1].strip()
+        sts = []
+        while loop:
+            for pat, f in ((r"if ptr::eq\(this\.inner\(\), item\.as_ptr\(\)\) \{ continue; \}", lambda mm: "PSkipSelf"),
+                           (r"let mut links = item\.as_ref\(\)\.links\(\)\.borrow_mut\(\);", lambda mm: "PBorrowPeer"),
+                           (r"links\.remove\((\w+), strong\);", lambda mm: "PRemove %s" % binds[mm.group(1)] if mm.group(1) in binds else None)):
+                mm = re.match(pat, loop)
+                if mm:
+                    t = f(mm)
+                    if t is None:
+                        raise Unsupported("%s: remove of an unknown link %s" % (name, mm.group(1)))
+                    sts.append(t)
+                    loop = loop[mm.end():].strip()
+                    break
+            else:
+                raise Unsupported("%s: purge statement outside the subset: %r" % (name, loop[:70]))
+        text += "Definition g_%s_purge : list pstmt :=\n  [ %s ].\n\n" % (name, "; ".join(sts))
+    return text
+
+
+# ---------------------------------------------------------------------------------------------------
+# drop.rs: phase one of `drop_cycle`: which entries `extract_if` removes from a member's table, and how
+# often the member's strong count is decremented.
+def translate_bust(repo):
+    path = repo + "/src/drop.rs"
+    src = re.sub(r"//[^\n]*", "", open(path).read())
+    body = _norm(_fn_body(src, r"unsafe fn drop_cycle<T>\(cycle: HashMap<Link<T>, usize>\) \{"))
+    body = " ".join(re.sub(r"(?:debug|trace)!\((?:[^()]|\((?:[^()]|\([^()]*\))*\))*\);", "", body).split())
+    m = re.search(r"for \(ptr, &refcount\) in &cycle \{ let rcbox = ptr\.as_ptr\(\); let _busted_forward_links = \{ "
+                  r"let mut links = \(\*rcbox\)\.links\(\)\.borrow_mut\(\); links\.extract_if\(\|link, _\| \{ "
+                  r"if let (?P<kinds>Kind::\w+(?: \| Kind::\w+)*) = link\.kind\(\) \{ (?P<th>[^{}]*) \} else \{ (?P<el>[^{}]*) \} \}\)"
+                  r"(?P<unused>\.map\(.*?\)\.sum::<usize>\(\))? \}; "
+                  r"for _ in 0\.\.(?P<bound>[^{]*) \{ \(\*rcbox\)\.dec_strong\(\); \} \}", body)
+    if not m:
+        raise Unsupported("phase one of drop_cycle is not of the shape the model's bust_one transcribes")
+    ks = [KINDS[k.strip()[6:]] for k in m.group("kinds").split("|")]
+
+    def pred(e):
+        e = e.strip()
+        if e == "cycle.contains_key(link)":
+            return "in_cycle"
+        if e in ("true", "false"):
+            return e
+        raise Unsupported("extract_if predicate branch outside the subset: %r" % e)
+    b = m.group("bound").strip()
+    mb = re.match(r"refcount\.min\(\(\*rcbox\)\.strong\(\)\)$", b)
+    if mb:
+        bound = "N.min refcount strong"
+    elif b == "refcount":
+        bound = "refcount"
+    elif b == "(*rcbox).strong()":
+        bound = "strong"
+    else:
+        raise Unsupported("decrement bound outside the subset: %r" % b)
+    return ("(* GENERATED by tools/rs2v.py from %s (drop_cycle, phase one) -- do not edit. *)\n"
+            "From Coq Require Import NArith List Bool. Import ListNotations.\nFrom CR Require Import Base.\n"
+            "From Gen Require Import CycleLang.\nLocal Open Scope N_scope.\n\n"
+            "(* the closure of extract_if: is the entry of kind [k] removed? [in_cycle] = cycle.contains_key(link) *)\n"
+            "Definition g_extract (k : kind) (in_cycle : bool) : bool :=\n"
+            "  if existsb (kind_is k) [%s] then %s else %s.\n\n"
+            "(* for _ in 0..BOUND { dec_strong } *)\n"
+            "Definition g_dec_times (refcount strong : N) : N := %s.\n"
+            % (path, "; ".join(ks), pred(m.group("th")), pred(m.group("el")), bound))
+
+
 if __name__ == "__main__":
     # rs2v.py <repo> <outdir> <counters|adopt>   (no outdir: print)
     import os
@@ -1025,6 +1118,10 @@ if __name__ == "__main__":
             text, name = translate_effects(repo), "EffectsGen.v"
         elif part == "links":
             text, name = translate_links(repo), "LinksGen.v"
+        elif part == "purge":
+            text, name = translate_purge(repo), "PurgeGen.v"
+        elif part == "bust":
+            text, name = translate_bust(repo), "BustGen.v"
         else:
             text, name = translate_handles(repo), "HandlesGen.v"
     except (Unsupported, ValueError, IndexError) as e:
